@@ -120,6 +120,19 @@ def spec_exotic(tr):
     return {'types': types, 'settings': settings}
 
 
+def spec_real():
+    """the REAL spec: load_spec_from_schema(std schema), dumped by the impl script in the case format"""
+    env = lib.impl_env()
+    env['VRT_REPO'] = lib.REPO
+    import subprocess
+    p = subprocess.run([lib.PY, IMPL, lib.REPO, 'specdump'], env=env, capture_output=True, text=True, timeout=900)
+    if p.returncode != 0:
+        raise RuntimeError('specdump failed: ' + p.stderr[-1500:])
+    d = json.loads(p.stdout.strip().split('\n')[-1])
+    d['real'] = True
+    return d
+
+
 # ================================================================ value generators
 STRS = ['', 'hello', 'a', 'b', '*', 'TCP', 'HTTP', "it's \"x\" $", 'a\nb', 'tab\there', 'žluť', '‮abc',
         '\U0001f600', 'x' * 40, '$$', '\\', '0', 'PT1S', 'None', 'true']
@@ -287,6 +300,7 @@ def obj_payload(rnd, spec, tname, valid=True, depth=0):
         d.append(['_tname', tname])
     t = types[actual]
     pools = {'priority': [0, 1, 2, 3], 'name': ['a', 'b', 'c'], 'database': ['f1', 'f2', 'f3'],
+             'host': ['localhost', 'smtp.example.com'], 'username': ['u'], 'sub1': ['s1'], 'sub2': ['s2'],
              'port': [1000, 1001, 80], 'concurrency': [1, 4], 'protocol': ['http', 'graphql+http'],
              'user': ['test', 'admin', '*'], 'title': ['T', 'U'], 'width': [80, 120]}
     for f in t['fields']:
@@ -450,10 +464,165 @@ def gen_case(rnd, spec, malformed=False, maxlen=10):
         focus.append('nope')
     n = rnd.randint(1, maxlen)
     scopes = rnd.sample(SCOPES, rnd.choice([1, 2, 3, 3]))
+    sysnames = {s['n'] for s in spec['settings'] if s.get('sys')}
     ops = []
     for _ in range(n):
-        ops.append(gen_op(rnd, spec, rnd.choice(focus), rnd.choice(scopes), malformed))
+        nm = rnd.choice(focus)
+        # CONFIGURE SESSION / CURRENT BRANCH is refused by the compiler for system-level settings: in the
+        # real-spec stream (whose to_edgeql text is loaded back through the real compiler) they are only
+        # touched at instance scope
+        sc = 'INSTANCE' if (spec.get('real') and nm in sysnames) else rnd.choice(scopes)
+        ops.append(gen_op(rnd, spec, nm, sc, malformed))
     return {'spec': spec, 'ops': ops, 'q': names + ['nope']}
+
+
+# ---------------------------------------------------------------- real spec: CONFIGURE text through the real compiler
+SCOPE_TEXT = {'SESSION': ['SESSION'], 'DATABASE': ['CURRENT BRANCH', 'CURRENT DATABASE'], 'INSTANCE': ['INSTANCE', 'SYSTEM']}
+QL_STRS = ['', 'hello', 'a', 'b', '*', 'TCP', 'x y', 'NeverAllow', 'AlwaysAllow', 'One', 'Two', 'zzz', 'PT1S', 'false',
+           'Default', 'InMemory', 'žluť']
+PG_DUR = [('1 hour', 3600_000_000), ('3 ms', 3000), ('90 seconds', 90_000_000), ('2 minutes 5 us', 120_000_005),
+          ('-5', -5_000_000), ('0', 0), ('01:02:03', 3723_000_000), ('1 hour 3 ms', 3600_003_000)]
+
+
+def ql_expr(rnd, sd):
+    """-> (EdgeQL expression text, label) for `CONFIGURE <scope> SET <name> := <expr>`.
+    label ('p', canon): if the statement is accepted its value must be canon;
+          ('x',): the text is ill-typed for the setting: the compiler or Operation.apply must reject it"""
+    kind, p, so = setting_kind(sd)
+    r = rnd.random()
+
+    def lit(p, bad=False):
+        if p == 'bool':
+            if bad:
+                return rnd.choice(['1', "'true'", '0.5']), None
+            b = rnd.random() < 0.5
+            return ('true' if b else 'false'), ('T' if b else 'F')
+        if p == 'int':
+            if bad:
+                return rnd.choice(["'5'", 'true', '1.5', "<duration>'1s'"]), None
+            z = rnd.choice([0, 1, 2, 5, 10, 100, 5656, 32767, 32768, 2147483647, 2147483648, -1,
+                            9223372036854775807, rnd.randrange(1, 1000)])
+            return str(z), f'i{z}'
+        if p == 'str':
+            if bad:
+                return rnd.choice(['5', 'true', "<duration>'1s'"]), None
+            x = rnd.choice(QL_STRS)
+            return "'" + x + "'", canon_str(x)
+        if p == 'float':
+            return '1.5', None
+        if p == 'dur':
+            if bad:
+                return rnd.choice(['5', "'PT1S'" if False else 'true', "<duration>'abc'", "<duration>'PT1X'"]), None
+            q = rnd.random()
+            if q < 0.5:
+                t, us = gen_iso(rnd)
+                return f"<duration>'{t}'", f'd{us}'
+            t, us = rnd.choice(PG_DUR)
+            return f"<duration>'{t}'", f'd{us}'
+        if p == 'mem':
+            if bad:
+                return rnd.choice(["<cfg::memory>'5 MiB'", "<cfg::memory>'5mib'", "<cfg::memory>true", "'5MiB'" if False else "5.5",
+                                   "<cfg::memory>'-5B'", "<cfg::memory>''"]), None
+            q = rnd.random()
+            if q < 0.6:
+                sfx, u = rnd.choice(UNITS)
+                k = rnd.choice([0, 1, 7, 1024, rnd.randrange(10 ** 6)])
+                return f"<cfg::memory>'{k}{sfx}'", f'm{k * u}'
+            if q < 0.85:
+                n = gen_mem_n(rnd)
+                return f'<cfg::memory>{n}', f'm{n}'
+            n = rnd.choice([-5, -1024, -1])
+            return f'<cfg::memory>{n}', f'm{n}'          # negative size (known finding C19-json-memory-negative)
+        if isinstance(p, list):
+            tn = ['sys::TransactionIsolation', 'cfg::TestEnabledDisabledEnum', 'sys::TransactionAccessMode',
+                  'sys::TransactionDeferrability'][p[1]]
+            if bad:
+                return rnd.choice([f"<{tn}>'Nope'", '5', 'true']), None
+            mem = rnd.choice(p[2])
+            return (f"<{tn}>'{mem}'" if rnd.random() < 0.6 else f"'{mem}'"), f'e{p[1]}:{mem}'
+        raise ValueError(p)
+    if kind != 'p':
+        return None
+    if so:
+        if r < 0.1:
+            t, _ = lit(p, True)
+            return '{' + t + '}', ('x',)
+        k = rnd.choice([0, 1, 1, 2, 3])
+        items = [lit(p) for _ in range(k)]
+        if k == 1 and rnd.random() < 0.5:
+            return items[0][0], ('p', '{' + items[0][1] + '}')
+        return '{' + ', '.join(i[0] for i in items) + '}', ('p', '{' + ','.join(sorted({i[1] for i in items})) + '}')
+    if r < 0.15:
+        t, _ = lit(p, True)
+        return t, ('x',)
+    t, c = lit(p)
+    return t, (('p', c) if c is not None else None)
+
+
+def gen_real_items(rnd, spec, maxlen=10):
+    names = [s['n'] for s in spec['settings']]
+    sdesc = {s['n']: s for s in spec['settings']}
+    focus = rnd.sample(names, rnd.choice([1, 1, 2, 3]))
+    n = rnd.randint(1, maxlen)
+    scopes = rnd.sample(SCOPES, rnd.choice([1, 2, 3, 3]))
+    items = []
+    for _ in range(n):
+        nm = rnd.choice(focus)
+        sd = sdesc[nm]
+        sc = rnd.choice(scopes)
+        if sd.get('sys') and rnd.random() < 0.9:
+            sc = 'INSTANCE'
+        kind = sd['t'][0]
+        if kind == 'p':
+            if rnd.random() < 0.2:
+                items.append(('ql', f'CONFIGURE {rnd.choice(SCOPE_TEXT[sc])} RESET {nm};', None))
+            else:
+                e = ql_expr(rnd, sd)
+                items.append(('ql', f'CONFIGURE {rnd.choice(SCOPE_TEXT[sc])} SET {nm} := {e[0]};', e[1]))
+        else:
+            # INSERT / filtered RESET are executed by the backend (evaluate_to_config_op leaves them to
+            # SQL): their Operation payloads are generated here, as in the synthetic streams
+            items.append(('op', gen_op(rnd, spec, nm, sc, False), None))
+    return items
+
+
+def gen_real_cases(rnd, spec, n):
+    """-> (cases, compile statistics, compile-stage violations)"""
+    all_items = [gen_real_items(rnd, spec) for _ in range(n)]
+    texts = sorted({it[1] for items in all_items for it in items if it[0] == 'ql'})
+    env = lib.impl_env()
+    env['VRT_REPO'] = lib.REPO
+    outs = lib.parallel_lines([lib.PY, IMPL, lib.REPO, 'compile'], [json.dumps({'t': t}) for t in texts], env=env)
+    comp = {t: json.loads(o) for t, o in zip(texts, outs)}
+    names = [s['n'] for s in spec['settings']]
+    stats = {'statements': len(texts), 'compiled': sum('op' in v for v in comp.values()), 'rejected_by_class': {}}
+    for v in comp.values():
+        if 'err' in v:
+            stats['rejected_by_class'][v['err']] = stats['rejected_by_class'].get(v['err'], 0) + 1
+    cviol = []
+    cases = []
+    for items in all_items:
+        ops = []
+        for it in items:
+            if it[0] == 'op':
+                ops.append(it[1])
+                continue
+            _, text, label = it
+            r = comp[text]
+            if 'err' in r:
+                continue                      # refused by the compiler: no operation reaches the config layer
+            op = list(r['op'])
+            if label is not None and label[0] == 'p':
+                op.append(['v', label[1]])
+            elif label is not None and label[0] == 'x':
+                op.append(['x'])
+            else:
+                op.append(None)
+            op.append(text)
+            ops.append(op)
+        if ops:
+            cases.append({'spec': spec, 'ops': ops, 'q': names + ['nope']})
+    return cases, stats, cviol
 
 
 def small_scope(spec):
@@ -502,7 +671,10 @@ def corpus():
     return out
 
 
-def gen_cases(tier, tr):
+REAL_STATS = {}
+
+
+def gen_cases(tier, tr, SR=None):
     rnd = lib.rng('C19')
     S1, S2 = spec_main(tr), spec_exotic(tr)
     cases = corpus()
@@ -513,6 +685,13 @@ def gen_cases(tier, tr):
     cases += [gen_case(rnd, S1, False) for _ in range(nv)]
     cases += [gen_case(rnd, S1, True) for _ in range(nm)]
     cases += [gen_case(rnd, S2, rnd.random() < 0.4) for _ in range(nx)]
+    if SR is not None:
+        nr = 3000 if tier == 'quick' else 30000
+        rc, stats, _ = gen_real_cases(rnd, SR, nr)
+        cases += rc
+        REAL_STATS.clear()
+        REAL_STATS.update(stats)
+        REAL_STATS['cases'] = len(rc)
     if tier != 'quick':
         cases += [gen_case(rnd, S1, False, maxlen=40) for _ in range(5000)]
     return cases, ncorp
@@ -684,7 +863,10 @@ def _is_bad_mem_payload(v):
 def pred_json_memory(case, tag):
     """a negative int (or a bool) is accepted for a cfg::memory setting / field; its JSON form
     ('-5B', 'TrueB') is rejected by from_json"""
-    if not tag.startswith('json-roundtrip-raised:') or not tag.endswith(':InvalidValueError'):
+    # the same unloadable text ('-5B' / 'TrueB') is what to_edgeql prints since 3120b56:
+    # `<cfg::memory>'-5B'` is rejected when the statement is loaded back
+    if not ((tag.startswith('json-roundtrip-raised:') and tag.endswith(':InvalidValueError'))
+            or (tag.startswith('edgeql-roundtrip:') and tag.endswith(':raise:parse:InvalidValueError'))):
         return False
     mem = _mem_setting_names(case['spec'])
     mf = {f for _, f in _mem_fields(case['spec'])}
@@ -761,7 +943,86 @@ def obs_empty_multi_field(case, tag):
     return any(o[0] in ('SET', 'ADD') and has(o[3]) for o in case['ops'])
 
 
-OBSERVATIONS = {'empty-multi-field-vs-default': obs_empty_multi_field}
+def walk_objs(spec, tname, payload):
+    """yield (resolved type description, {field: payload}) for every object payload nested in `payload`
+    (a dict payload of declared type `tname`; `_tname` overrides, as in from_pyvalue)"""
+    types = {t['name']: t for t in spec['types']}
+    if isinstance(payload, list):
+        for x in payload:
+            yield from walk_objs(spec, tname, x)
+        return
+    if not (isinstance(payload, dict) and 'd' in payload):
+        return
+    d = {k: v for k, v in payload['d']}
+    tn = d.get('_tname') if isinstance(d.get('_tname'), str) else tname
+    t = types.get(tn)
+    if t is None:
+        return
+    yield t, d
+    for f in t['fields']:
+        if f['t'][0] == 'obj' and f['n'] in d:
+            yield from walk_objs(spec, f['t'][1], d[f['n']])
+
+
+def case_objs(case):
+    sd = {s['n']: s for s in case['spec']['settings']}
+    for o in case['ops']:
+        if o[0] in ('ADD', 'SET') and o[2] in sd and sd[o[2]]['t'][0] == 'obj':
+            yield from walk_objs(case['spec'], sd[o[2]]['t'][1], o[3])
+
+
+def pred_multi_default_tuple(case, tag):
+    """a multi-valued field whose schema default has several elements gets the default
+    frozenset({(<elements>)}) -- a set holding ONE TUPLE (staeval.object_type_to_spec wraps the tuple
+    instead of converting it); an object created without that field cannot be written as JSON and
+    read back, nor printed by to_edgeql.  In the pinned schema: cfg::mTLS.transports."""
+    if not ((tag.startswith('json-roundtrip-raised:') and tag.endswith(':ConfigurationError'))
+            or (tag.startswith('edgeql-roundtrip:') and tag.endswith(':raise:to_edgeql:ValueError'))):
+        return False
+    for t, d in case_objs(case):
+        for f in t['fields']:
+            if f['t'][0] == 'set' and isinstance(f.get('d'), dict) and any(isinstance(x, list) for x in f['d'].get('fs', [])):
+                if d.get(f['n']) is None:
+                    return True
+    return False
+
+
+def obs_bool_for_int(case, tag):
+    """Operation.apply accepts a bool where the setting / field type is int (isinstance); to_edgeql prints
+    `true`, which the real compiler refuses for an int setting (so does it for the original CONFIGURE
+    statement: the state is reachable only through operations not produced by the compiler)"""
+    if not (tag.startswith('edgeql-roundtrip:') and (tag.endswith(':raise:parse:ConfigurationError')
+                                                     or tag.endswith(':raise:parse:QueryError'))):
+        return False
+    sd = {s['n']: s for s in case['spec']['settings']}
+
+    def has_bool(x):
+        return isinstance(x, bool) or (isinstance(x, list) and any(isinstance(y, bool) for y in x))
+    for o in case['ops']:
+        if o[0] == 'SET' and o[2] in sd and sd[o[2]]['t'] == ['p', 'int'] and has_bool(o[3]):
+            return True
+    for t, d in case_objs(case):
+        for f in t['fields']:
+            if f['t'] in (['p', 'int'], ['set', 'int']) and has_bool(d.get(f['n'])):
+                return True
+    return False
+
+
+def obs_none_default_multi_field(case, tag):
+    """a multi-valued object field whose default is None (cfg::AuthMethod.transports, cfg::Trust.transports)
+    is written to JSON as [] and read back as frozenset(): None vs empty set"""
+    if not tag.startswith('json-roundtrip-differs:'):
+        return False
+    for t, d in case_objs(case):
+        for f in t['fields']:
+            if f['t'][0] == 'set' and 'd' in f and f['d'] is None and d.get(f['n']) is None:
+                return True
+    return False
+
+
+OBSERVATIONS = {'empty-multi-field-vs-default': obs_empty_multi_field,
+                'bool-for-int': obs_bool_for_int,
+                'none-default-multi-field': obs_none_default_multi_field}
 
 KNOWN_PREDICATES = {
     # (C19-to_edgeql-memory and C19-to_edgeql-unparseable-string were fixed in /repo, commits 3120b56 and
@@ -769,11 +1030,15 @@ KNOWN_PREDICATES = {
     #  repo grammar alarms if they return)
     'C19-json-memory-negative': pred_json_memory,
     'C19-to_edgeql-int64': pred_edgeql_int64,
+    'C19-multi-default-tuple': pred_multi_default_tuple,
 }
 
 
 def classify(case, tag, known_ids):
     t = strip_tag(tag)
+    for fid, pred in KNOWN_PREDICATES.items():
+        if fid in known_ids and pred(case, t):
+            return fid, fid
     for oid, pred in OBSERVATIONS.items():
         if pred(case, t):
             return 'obs:' + oid, oid
@@ -857,7 +1122,13 @@ def run(tier):
         return rep.finish()
 
     # ---- 3. cases
-    cases, ncorp = gen_cases(tier, tr)
+    SR = None
+    sr_err = None
+    try:
+        SR = spec_real()
+    except Exception as e:
+        sr_err = f'{type(e).__name__}: {str(e)[-800:]}'
+    cases, ncorp = gen_cases(tier, tr, SR)
     lines = [enc(c) for c in cases]
     impl = run_impl(lines)
     model = lib.run_model(exe, lines) if exe else None
@@ -936,6 +1207,9 @@ def run(tier):
                              'proposed_known_finding': would,
                              'how': f'PYTHONPATH={lib.REPO}:harness /venv/bin/python harness/impl/c19_impl.py '
                                     f'{lib.REPO} <<< case'})
+    if SR is None:
+        rep.violation('the real configuration spec could not be loaded (std schema / load_spec_from_schema): ' + str(sr_err),
+                      {'broken': 'harness/impl/c19_impl.py specdump', 'error': sr_err}, False)
     for i in harness_err[:1]:
         rep.violation('harness error while driving the real code: ' + impl[i][:300],
                       {'case': lines[i], 'broken': 'harness/impl/c19_impl.py'}, False)
@@ -1005,6 +1279,11 @@ def run(tier):
                            'x (outside the type, must be rejected)': labels.get('x', 0),
                            'a (valid object, accepted unless exclusive conflict)': labels.get('a', 0),
                            'unlabelled (quirks, filtered resets, junk)': labels.get('-', 0)},
+        'real_spec_stream': (dict(REAL_STATS, note='CONFIGURE SET/RESET text generated here, compiled by the REAL compiler '
+                                  'front end (parse -> compile_ast_to_ir -> evaluate_to_config_op) on the REAL spec '
+                                  'loaded from the std schema; the resulting Operations are the cases of this stream '
+                                  '(INSERT / filtered RESET payloads are generated: the compiler leaves them to SQL)')
+                             if SR is not None else {'unavailable': sr_err}),
         'translator': (tr or {}).get('manifest'),
         'trusted_base': [
             'Coq 8.16.1 kernel (coqc; coqchk in the thorough tier); vm_compute only for examples/refutations and the cases.v cross-check',
